@@ -86,6 +86,9 @@ int main(int argc, char** argv) {
         int kindmod = (int)((c / 8) % 3);         // 1: pure phase modulation, 2: noise (+ maybe modulation)
         bool longrun = (c % 97 == 5);             // a few very long pure modulations on a tiny grid (frequency must not drift)
         if (longrun) { p.n = 16; p.steps = (uint32_t)r.range(40000, M.thorough() ? 300000 : 120000); zero = false; kindmod = 1; }
+        // a few cases on meshes beyond 256 cells (all three kinds: zero amplitudes, modulation, noise)
+        if (c % 97 == 40 || c % 97 == 41 || c % 97 == 64) { static const uint32_t big_n[] = {300, 520, 1030}; p.n = big_n[(c / 97) % 3]; p.steps = (uint32_t)r.range(3, 30);
+            dE = p.pq / (p.n - 1) * p.pscale; if (!p.linear) p.revpart = r.uni(0.05, 1) * (p.n / 6.0) * dE / (p.V + p.V0); M.ev("cases_on_meshes_beyond_256_cells"); }
         p.phasespread = p.amplspread = p.modampl = p.modinc = 0;
         if (!zero) {
             if (kindmod == 1) { p.modampl = r.logu(1e-4, 0.3); p.modinc = longrun ? r.logu(1e-4, 1e-2) : r.logu(1e-4, 0.4); }
